@@ -142,6 +142,11 @@ def check_C16(tier, seed):
                 elif pre == 2:
                     with open(dest, "w") as fh:
                         fh.write("// This file was generated by Peginator v0.7.0 built at 1\n")
+                elif pre == 3:
+                    # an older, much longer output (another grammar, formatted): nothing of it may survive
+                    with open(dest, "w") as fh:
+                        fh.write("// This file was generated by Peginator v0.6.0 built at 1\n// CRC-32/ISO-HDLC of the grammar file: 00000000\n"
+                                 "// Any changes to it will be lost on regeneration\n\n" + "pub struct StaleTail;\n" * 20000)
                 order = list("opdfc")
                 random.Random("c16o/%s/%d/%d" % (seed, di, i)).shuffle(order)
                 p = subprocess.run([bs, "run", gp, dest, build.hexs(pref), dspec, "0", "vfrt::Ctx" if g.user_ctx else "-", "".join(order)], stdout=subprocess.PIPE, stderr=subprocess.PIPE, env=build.BASE_ENV, timeout=120)
